@@ -290,6 +290,11 @@ func main() {
 	ev := &mc.Evidence{PropertyID: *prop, Tier: *tier, Level: level(*prop),
 		Coverage: mc.ModelCheckingCoverage(total, map[string]any{"scenarios": perScenario}),
 		Assumptions: assumptions(*prop), Wall: time.Since(start).Seconds()}
+	if ev.Level == "fault_enumeration" {
+		ev.Coverage["evaluations"] = total.Counters["crash_points"]
+		ev.Coverage["distinct_nontrivial"] = total.Counters["distinct_mid_sequence_images"]
+		ev.Coverage["rule"] = "one evaluation = one crash point: the storage image 'state before the operation + first k recorded Write/Remove calls' of a Clean/Save in an explored history, loaded by a fresh repository and checked; enumerated for every k from 0 to all calls, for every such operation in every history of the search. distinct_nontrivial counts distinct storage images (by content digest) among crash points strictly inside a write sequence (0 < k < all)"
+	}
 	os.Exit(mc.Finish(ev, all))
 }
 
